@@ -13,7 +13,7 @@ use serde::{Deserialize, Serialize};
 use std::f64::consts::PI;
 use std::time::Instant;
 
-pub const RULE: &str = "cases = (a) closed forms for the mean of jacobian alone: massive one-vertex flowers (product of tadpoles, D*L<=8), massless L-loop bananas (L=1..3), massive bananas in D=1 with unit weights (L=1..6), massive bubble in D=3; (b) the universal identity E[jacobian * h(k) * prod_e (q_e^2+m_e^2)^nu_e] = 1 for a normalised test function h (Gaussian, or Student-type (s^2+|k-c|^2)^(-sum nu) whose product with the propagators tends to a constant at large k) with generated centre/width on arbitrary accepted graphs with D*L<=8 and all omega>=0.3, width chosen by an independent pilot run; every case under a generated routing (random spanning tree, unimodular column operations, orientation flips, offsets); (c) deterministic scaling relation jacobian(2*kinematics) = 2^(-2 dod) jacobian(kinematics) pointwise. decision: N iid uniform points from a rand::StdRng seeded by the case; z=(mean-target)/se; |z|>4.5 triggers a second stage with 8N fresh points; violation only if |z2|>5 with the same sign and comparable spread, otherwise inconclusive (never a violation); draws on which the sampler returns an error (Gamma coordinate below the 1e-13 quantile, allowed by C12) are excluded from the mean for g = 1, whose weight does not depend on that coordinate, and count as zero for the universal identity. non-trivial = L>=2, or a massive edge, or unequal weights, or D!=3; distinct = distinct case encodings";
+pub const RULE: &str = "cases = (a) closed forms for the mean of jacobian alone: massive one-vertex flowers (product of tadpoles, D*L<=18), massless L-loop bananas (L=1..3, D*L<=18), massive bananas in D=1 with unit weights (L=1..6), massive bubble in D=3; (b) the universal identity E[jacobian * h(k) * prod_e (q_e^2+m_e^2)^nu_e] = 1 for a normalised test function h (Gaussian, or Student-type (s^2+|k-c|^2)^(-sum nu) whose product with the propagators tends to a constant at large k) with generated centre/width on arbitrary accepted graphs with D*L<=8 and all omega>=0.3, width chosen by an independent pilot run; every case under a generated routing (random spanning tree, unimodular column operations, orientation flips, offsets); (c) deterministic scaling relation jacobian(2*kinematics) = 2^(-2 dod) jacobian(kinematics) pointwise. decision: N iid uniform points from a rand::StdRng seeded by the case; z=(mean-target)/se; |z|>4.5 triggers a second stage with 8N fresh points; violation only if |z2|>5 with the same sign and comparable spread, otherwise inconclusive (never a violation); draws on which the sampler returns an error (Gamma coordinate below the 1e-13 quantile, allowed by C12) are excluded from the mean for g = 1, whose weight does not depend on that coordinate, and count as zero for the universal identity. non-trivial = L>=2, or a massive edge, or unequal weights, or D!=3; distinct = distinct case encodings";
 
 #[derive(Clone, Debug, Serialize, Deserialize, PartialEq)]
 pub enum Kind {
@@ -56,13 +56,13 @@ pub fn gen_case(t: &mut Tape, tier: Tier) -> Option<Case> {
     let g = match kind {
         Kind::Flower => {
             let d = t.range(1, 6);
-            let l = t.range(1, (8 / d).max(1).min(6));
+            let l = t.range(1, (18 / d).max(1).min(6));
             let weights = (0..l).map(|_| d as f64 / 2.0 + t.uniform(0.35, 1.5)).collect();
             G { edges: vec![(0, 0); l], massive: vec![true; l], weights, externals: vec![], d }
         }
         Kind::MasslessBanana => {
             let d = t.range(2, 6);
-            let l = t.range(1, (8 / d).max(1).min(3));
+            let l = t.range(1, (18 / d).max(1).min(3));
             // nu_i < D/2, sum nu > L D/2, omega >= 0.3 for all subsets: draw around (L D/2 + w)/(L+1)
             let mut g = banana_graph(l, d, false, vec![1.0; l + 1]);
             let mut ok = false;
@@ -360,7 +360,7 @@ pub fn check(c: &Case, ctx: &mut Ctx) -> Result<(), Failure> {
         fail!("bad-case", "graph outside the domain");
     }
     let nl = g.num_loops();
-    if nl == 0 || g.d * nl > 8 || c.kin.sig.len() != ne || c.kin.sig.iter().any(|r| r.len() != nl) || c.kin.shifts.len() != ne || c.kin.masses.len() != ne || c.centre.len() != nl || c.n == 0 || c.n > 50_000_000 {
+    if nl == 0 || g.d * nl > if c.kind == Kind::Universal { 8 } else { 18 } || c.kin.sig.len() != ne || c.kin.sig.iter().any(|r| r.len() != nl) || c.kin.shifts.len() != ne || c.kin.masses.len() != ne || c.centre.len() != nl || c.n == 0 || c.n > 50_000_000 {
         fail!("bad-case", "kinematics do not fit / D*L > 8");
     }
     let _ = phys::K;
